@@ -97,7 +97,7 @@ def handle (s : St) (op : String) (args : List Sexp) : Option (St × String) := 
         else pure (s, resInt (c.addT s.tbl a t n))
     | "clock", [t] =>     -- Calendar.clock(t) = dt2int.get(t, dt2int[adjust(t)]) (_drange.py:615-618): the table index of adjust(t)
         let t ← t.toInt?
-        pure (s, match clockOfT s.tbl (c.adjust c.adj t) with
+        pure (s, match c.clockT s.tbl t with
                  | .ok i => okInt i
                  | .error e => "err " ++ e.render)
     | "bdays", [a, x, y] =>
